@@ -40,6 +40,7 @@ type Pipe struct {
 	cnt    [2]int64
 	limit  [2]int64 // absolute byte count at which the pipe is killed; -1 = none
 	rst    bool
+	stall  bool // at the limit: stop reading the client, half-close towards it, close the server side
 	fault  string
 	dead   bool
 	killed chan struct{}
@@ -61,6 +62,7 @@ type Forwarder struct {
 	attempts int
 	recs     []*Rec
 	pipes    []*Pipe
+	late     []net.Conn // client connections of stalled pipes, closed by Close
 	wg       sync.WaitGroup
 }
 
@@ -243,8 +245,12 @@ func (p *Pipe) copy(dir int, from, to net.Conn) {
 			}
 			if hit {
 				p.mu.Lock()
-				rst := p.rst
+				rst, stall := p.rst, p.stall
 				p.mu.Unlock()
+				if stall && dir == C2S {
+					p.stallFin()
+					return
+				}
 				p.kill([]string{"cut-c2s", "cut-s2c"}[dir], rst)
 				return
 			}
@@ -277,6 +283,37 @@ func (p *Pipe) kill(fault string, rst bool) {
 	p.sync()
 }
 
+// stallFin ends the pipe from the client's point of view with an orderly end of stream while the
+// forwarder stops consuming what the client sends: a writer with more data than the socket buffers
+// stays blocked in its write while the reader sees EOF. The client connection is only closed by
+// Forwarder.Close.
+func (p *Pipe) stallFin() {
+	p.mu.Lock()
+	if p.dead {
+		p.mu.Unlock()
+		return
+	}
+	p.dead = true
+	p.fault = "stall-fin"
+	close(p.killed)
+	p.mu.Unlock()
+	p.srv.Close()
+	if t, ok := p.cli.(*net.TCPConn); ok {
+		t.CloseWrite()
+	}
+	p.f.mu.Lock()
+	p.f.late = append(p.f.late, p.cli)
+	p.f.mu.Unlock()
+	p.sync()
+}
+
+// Reset closes the client side of a stalled pipe with a reset (what a peer that has gone away
+// answers to the data or window probes that follow its end of stream).
+func (p *Pipe) Reset() {
+	setLinger0(p.cli)
+	p.cli.Close()
+}
+
 func (p *Pipe) sync() {
 	p.mu.Lock()
 	c, s, fault, dead := p.cnt[C2S], p.cnt[S2C], p.fault, p.dead
@@ -296,6 +333,15 @@ func (p *Pipe) CutAfter(dir int, k int64, rst bool) {
 	p.mu.Lock()
 	p.limit[dir] = p.cnt[dir] + k
 	p.rst = rst
+	p.mu.Unlock()
+}
+
+// StallAfter arms a fault: after k more bytes client -> server the forwarder stops reading the
+// client, sends it an orderly end of stream and closes the server side.
+func (p *Pipe) StallAfter(k int64) {
+	p.mu.Lock()
+	p.limit[C2S] = p.cnt[C2S] + k
+	p.stall = true
 	p.mu.Unlock()
 }
 
@@ -394,9 +440,14 @@ func (f *Forwarder) Close() {
 		f.holdFD = -1
 	}
 	ps := append([]*Pipe(nil), f.pipes...)
+	late := f.late
+	f.late = nil
 	f.mu.Unlock()
 	for _, p := range ps {
 		p.kill("", false)
+	}
+	for _, c := range late {
+		c.Close()
 	}
 	f.wg.Wait()
 }
